@@ -2073,7 +2073,8 @@ fn audit_corpus() -> Vec<(&'static str, usize, Option<ConnectionConfig>, Option<
         // --- class 2, input alphabet: the empty key, a key that is not UTF-8 on the wire (0xFF, lands
         // on U+FFFD), a key with CR LF and blanks, a 300-byte key; empty / binary / 70 000-byte values
         let big: String = "K".repeat(300);
-        let odd = vec!["".to_string(), FFFD_KEY.to_string(), "a b\r\nc".to_string(), big.clone(), "é".to_string()];
+        // … keys with leading / trailing blanks and line ends, keys that differ only in case
+        let odd = vec!["".to_string(), FFFD_KEY.to_string(), "a b\r\nc".to_string(), big.clone(), "é".to_string(), " lead".to_string(), "lead".to_string(), "trail \r\n".to_string(), "trail".to_string(), "UPPER".to_string(), "upper".to_string()];
         let bin: Vec<u8> = vec![0xff, 0x00, b'\r', b'\n', 0x80, b'*', b'$'];
         let huge: Vec<u8> = (0..70_000u32).map(|i| (i % 251) as u8).collect();
         for (i, k) in odd.iter().enumerate() {
@@ -2519,7 +2520,7 @@ fn xcorpus() -> Vec<(Vec<XStep>, Option<(&'static str, &'static str)>)> {
 /// the coverage self-audit against the eleven miss classes (DESIGN.md §4 C05 "Coverage audit")
 const AUDIT: &str = r####"{
  "1 entry paths": "CLOSED: the match arms of the handler's two transaction blocks, of execute_connection_level, of the executor's queueing prologue, the stub names, the functions of transaction_ops.rs, the files of src/ that mention transaction state and the command loops a MULTI can reach are READ FROM THE SOURCE the binary was built against (c05x::source_scan) and compared with the table of what is driven: a new arm / stub / file / front end fails the check (C05:coverage:…:not-driven / …:gone / scan-failed). Every arm is driven: decision table extracted cell by cell from the real handler (15 reachable state classes × 26 inputs over the 11 input classes; TBL op against the model's table), every connection-level arm and stub inside EXEC vs outside (connection_level_sweep), every Command variant queued and EXECed on a real executor vs outside (executor_variant_sweep, C17's exhaustive all_variants). Front ends: production handler (H1), CommandExecutor, SimulationHarness and RedisServer (one executor for all clients: model Txn.xsharedRun), ReplicatedShardedState::execute = the loop of server_persistent (model Txn.rstep), SimulatedConnection (cannot carry MULTI: probed). OPEN: the ACL check of queued commands (feature `acl` off in the harness build: inside MULTI the handler performs no ACL check at all, neither at queue time nor at EXEC — noted, not driven); Maelstrom adapters (never build a transaction command).",
- "2 input alphabet": "CLOSED: watched / written keys: empty key, a key that is not UTF-8 on the wire (0xFF → U+FFFD in WATCH, in the data commands and in the store alike), CR LF and blanks inside a key, 300-byte key, multi-byte UTF-8; values: empty, binary incl. CR LF / NUL / 0xFF, 70 000 bytes (beyond the duplex and read buffers), integers at the i64 limit, non-canonical integers; all five value types as watched keys (WATCH matrix); protocol garbage. OPEN: keys that differ only in invalid bytes collapse onto one key (lossy conversion) — the same in every path, C16's subject.",
+ "2 input alphabet": "CLOSED: watched / written keys: empty key, a key that is not UTF-8 on the wire (0xFF → U+FFFD in WATCH, in the data commands and in the store alike), CR LF and blanks inside / before / after a key (next to the same key without them), keys that differ only in case, 300-byte key, multi-byte UTF-8; values: empty, binary incl. CR LF / NUL / 0xFF, 70 000 bytes (beyond the duplex and read buffers), integers at the i64 limit, non-canonical integers; all five value types as watched keys (WATCH matrix); protocol garbage. OPEN: keys that differ only in invalid bytes collapse onto one key (lossy conversion) — the same in every path, C16's subject.",
  "3 comparisons at equality": "CLOSED: resp_values_equal on every GET-reply pair that can occur (nil / bytes / WRONGTYPE × same / same length / different length: matrix rows same-value-rewrite, same-length-replacement, change-and-change-back, delete-recreate); executor-level Value equality per type incl. score-only changes; queue length 0 / 1 / 2 / 3000; deadline of a watched key 1 ms before / exactly at / 1 ms after the EXEC instant (executor level, evicting and lazy clock); transaction_errors with 0 / 1 / several refused inputs; buffer length just below / at / above min_pipeline_buffer (13 / 14 / 60 with 13- and 14-byte reads).",
  "4 configuration": "CLOSED: every field of ConnectionConfig is generated input (1 in 4 random sessions + 70 scripted ones): read_buffer_size 1 / 2 / 7 / 13 / 14 / 16 / 64 / 8192 (frames split at every byte), min_pipeline_buffer 0 / 1 / 13 / 14 / 60 / 2^20, batch_threshold 0 / 1 / 2 / 3 / 64, max_buffer_size 256 / 2^20 / default, with transactions sent in one write that begin with and contain runs of GETs and SETs (the shapes the batch collectors and the fast path look for: they must stay out of a transaction); shard counts 1 and 4. OPEN: ACL configuration (feature off), TLS.",
  "5 capacity thresholds": "CLOSED: queue of 3000 commands filled 64 per write (beyond read buffer, duplex buffer and any Vec growth step), EXEC reply of 3000 results; 300 keys in one WATCH and 200 further WATCH commands (snapshot list of 500 entries, one awaited GET each at EXEC); 70 000-byte value inside a transaction; max_buffer_size crossed between MULTI and EXEC (error reply, connection closed, nothing applied).",
